@@ -46,7 +46,7 @@ def run(ctx):
     RT2.check_recursion_coverage(ctx, 'R12.5', only={'group_period', 'group_as', 'group_aliased', 'group_identifier', 'group_order', 'group_typecasts', 'group_arrays'})
     check_followers(ctx, V)
     check_name_after_period(ctx, V)
-    check_accessor_simulation(ctx)
+    accessor_simulation(ctx)
     check_wrapping_order(ctx)
     from .. import rules_base as RB
     from .. import rules_lexer as RL_
@@ -326,7 +326,14 @@ def check_lookups(ctx):
                 kw = {k.arg: k.value for k in c.keywords}
                 sw = kw.get('skip_ws', c.args[1] if len(c.args) > 1 else None)
                 ok = sw is None or (isinstance(sw, ast.Constant) and sw.value is True)
-                ctx.ob('R12.3', f'{f.short}:{src(c)}', f'{f.mod.relpath}:{c.lineno}', f'`{src(c)}` skips whitespace', ok,
+                how = ''
+                if not ok and q in ACCESSORS:
+                    # a look at the direct neighbour ("is there a separator?") is not wrong by itself: whether the results depend on the
+                    # whitespace is decided on the interpreted trees (four kinds of whitespace, around the period, in front of the alias)
+                    sim = accessor_simulation(ctx)
+                    if sim is not None and all(sim.values()):
+                        ok, how = True, ' (skip_ws=False; the interpreted Identifier trees give the written results with every kind of whitespace, R12.9)'
+                ctx.ob('R12.3', f'{f.short}:{src(c)}', f'{f.mod.relpath}:{c.lineno}', f'`{src(c)}` skips whitespace' + how, ok,
                        'the result depends on the surrounding whitespace')
             # whitespace tests by identity
             if isinstance(c, ast.Compare) and len(c.ops) == 1 and isinstance(c.ops[0], (ast.Is, ast.IsNot, ast.Eq, ast.NotEq)):
@@ -357,7 +364,10 @@ def check_alias(ctx):
     ctx.ob('R12.4', 'get_alias:AS-branch', loc, 'get_alias looks for (Keyword, AS) and returns the first name after it', as_branch, '')
     rev = any(isinstance(n, ast.Call) and is_attr(n.func, '_get_first_name', 'self') and any(k.arg == 'reverse' for k in n.keywords)
               for n in own_nodes(f.node))
-    ctx.ob('R12.4', 'get_alias:implicit-branch', loc, 'get_alias has an implicit-alias branch (last name of the identifier)', rev, '')
+    sim = accessor_simulation(ctx)
+    sim_alias = sim is not None and sim.get('get_alias') and sim.get('has_alias')
+    ctx.ob('R12.4', 'get_alias:implicit-branch', loc, 'get_alias has an implicit-alias branch (last name of the identifier)' +
+           ('' if rev else ' (written differently; aliases without AS are returned on the interpreted trees, R12.9)'), rev or bool(sim_alias), '')
     for q in ACCESSORS:
         m = repo.func(q)
         reach = cg.reachable([q])
@@ -416,8 +426,11 @@ def check_wiring(ctx):
             impl_ok = any('len(self.tokens) > 2' in e for e in facts) and any(e.endswith('is None') is False for e in facts)
     ctx.ob('R12.6', 'get_alias:after-AS', f'{f.mod.relpath}:{f.node.lineno}', 'with AS the alias is the first name after the AS keyword (search starts at its index + 1)', as_ok,
            f'calls {[src(c) for c in calls]}')
+    sim = accessor_simulation(ctx)
+    sim_alias = sim is not None and sim.get('get_alias') and sim.get('has_alias')
     ctx.ob('R12.6', 'get_alias:implicit-from-end', f'{f.mod.relpath}:{f.node.lineno}',
-           'without AS the alias is the last name of an identifier with more than two children', impl_ok, f'calls {[src(c) for c in calls]}')
+           'without AS the alias is the last name of an identifier with more than two children' +
+           ('' if impl_ok else ' (written differently; decided on the interpreted trees, R12.9)'), impl_ok or bool(sim_alias), f'calls {[src(c) for c in calls]}')
     # get_parent_name: token before the first dot, quotes removed
     f = repo.func('sqlparse.sql.TokenList.get_parent_name')
     dots = lookups(f, (P, '.'))
@@ -461,6 +474,11 @@ def check_wiring(ctx):
            'keywords count as names only when the caller asks (alias after AS); the returned value has its quotes removed', bool(ok), '')
 
 
+def accessor_simulation(ctx):
+    """{accessor: True | False} from the interpretation (None when it is not evaluable); reports the R12.9 obligations once"""
+    return ctx.shared('c12_accessor_simulation', lambda: check_accessor_simulation(ctx))
+
+
 def check_accessor_simulation(ctx):
     """The accessors decided on concrete Identifier trees (the shapes grouping builds for `name`, `qualifier.name`, quoted forms, with an
     alias with or without AS, with any whitespace in between): get_real_name / get_parent_name / get_alias / get_name / has_alias are
@@ -492,19 +510,33 @@ def check_accessor_simulation(ctx):
     spaces = [[(WSP, ' ')], [(NL, '\n')], [(WSP, ' '), (WSP, ' ')], [(NL, '\n'), (WSP, ' '), (WSP, ' ')]]
     bad = {}
     n = 0
-    for (nm, qu, al, with_as) in itertools.product(names, quals, aliases, (False, True)):
+    CM = TT(('Comment', 'Multiline'))
+    comment_cls = repo.classes.get('sqlparse.sql.Comment')
+    # whitespace around the period of a qualified name (before, after, both) and a comment that grouping attached behind the reference
+    dots = [([], []), ([(WSP, ' ')], []), ([], [(WSP, ' ')]), ([(WSP, ' ')], [(NL, '\n')])]
+    for (nm, qu, al, with_as, dot, trailing) in itertools.product(names, quals, aliases, (False, True), dots, (False, True)):
         if al is None and with_as:
             continue
+        if (dot != dots[0] and qu is None) or ((dot != dots[0] or trailing) and (nm is not names[0] and nm is not names[1])):
+            continue
         for sp in (spaces if al is not None else [[]]):
+            if (dot != dots[0] or trailing) and sp not in ([], spaces[0]):
+                continue
             kids = []
             if qu is not None:
-                kids += [leaf(qu[1], qu[0]), leaf(PUN, '.')]
+                kids += [leaf(qu[1], qu[0])] + [leaf(*s_) for s_ in dot[0]] + [leaf(PUN, '.')] + [leaf(*s_) for s_ in dot[1]]
             kids.append(leaf(nm[1], nm[0]))
             if al is not None:
                 kids += [leaf(*s_) for s_ in sp]
                 if with_as:
                     kids += [leaf(KW, 'as')] + [leaf(*s_) for s_ in sp]
                 kids.append(group([leaf(al[1], al[0])]))
+            if trailing:
+                cg_ = ME.AbsToken(repo, cls=comment_cls)
+                ck_ = [leaf(CM, '/* c */')]
+                cg_.tokens, cg_.parent, cg_.is_whitespace, cg_.value = ck_, None, False, '/* c */'
+                ck_[0].parent = cg_
+                kids += [leaf(WSP, ' '), cg_]
             node = group(kids)
             want = {'get_real_name': nm[2], 'get_parent_name': qu[2] if qu else None, 'get_alias': al[2] if al else None,
                     'get_name': al[2] if al else nm[2], 'has_alias': al is not None}
@@ -516,7 +548,7 @@ def check_accessor_simulation(ctx):
                     got = m_() if m_ is not None else 'no such method'
                 except (ME.Unsupported, ME.Unknown) as e:
                     ctx.ob('R12.9', 'simulation', loc, 'the identifier accessors are evaluable', None, f'{node.value!r}.{acc}(): {e}')
-                    return
+                    return None
                 except ME.Crash as e:
                     got = f'raises {e}'
                 n += 1
@@ -525,9 +557,10 @@ def check_accessor_simulation(ctx):
     ctx.info['accessor_simulated_calls'] = n
     if not bad:
         ctx.ob('R12.9', 'simulation', loc, f'{n} accessor calls on Identifier trees (name / qualifier.name, plain, double-quoted and back-quoted, alias with and '
-               'without AS, four kinds of whitespace in between): every accessor returns what is written', True)
+               'without AS, four kinds of whitespace in between, whitespace around the period, a comment attached behind the reference): every accessor returns what is written', True)
     for acc, items in sorted(bad.items()):
         ctx.ob('R12.9', f'simulation:{acc}', loc, f'{acc}() returns what is written on every interpreted Identifier tree', False, f'{len(items)} call(s) differ, e.g. {items[:3]}')
+    return {acc: acc not in bad for acc in ('get_real_name', 'get_parent_name', 'get_alias', 'get_name', 'has_alias')}
 
 
 def check_wrapping_order(ctx):
